@@ -7,7 +7,10 @@ from checks.evalcheck import run_family
 
 def run(ctx):
     run_family(ctx, "c07", 16000)
+    # random deeper programs over every operator, builtin and value kind, recorded from the real evaluator and validated by Trace_Expr
+    tr = ctx.record("prog-random", "expr", ["-mode", "prog", "-n", 40000 if ctx.thorough else 3000, "-seed", ctx.seed * 100 + 7])
+    ctx.validate("prog-random-validate", "trace/Trace_Expr.tla", "trace/Trace_Expr.cfg", tr, "expr", shards=14 if ctx.thorough else 2)
     return ctx.finish(
         rule="every formula of the family x 2 data maps evaluated by the real evaluator; compared: value, error, host-call log, "
-             "data map afterwards; deep snapshot of the caller's data before/after; non-trivial = pinned cases",
+             "data map afterwards; deep snapshot of the caller's data before/after; plus seeded random programs (depth <= 4, all operators / builtins / value kinds) validated by the trace specification; non-trivial = pinned cases",
         assumptions=["whether the right-hand side of an invalid assignment runs is unpinned when observable"])
